@@ -440,8 +440,10 @@ impl<W: Write> TableWriter<W> {
 		// Update metadata
 		self.update_meta_properties(&key, val);
 
-		// Flush block if it exceeds target size
-		if self.data_block.as_ref().unwrap().size_estimate() > self.opts.block_size {
+		// Flush block if it exceeds target size. An empty block is never flushed: its
+		// size estimate (restart array + count) alone exceeds a block_size below 8.
+		let block = self.data_block.as_ref().unwrap();
+		if block.entries() > 0 && block.size_estimate() > self.opts.block_size {
 			self.write_data_block(&enc_key)?;
 		}
 
